@@ -689,24 +689,34 @@ Proof.
   - intros H. right. apply IH. exact H.
 Qed.
 
+Lemma init_globals_names gs acc g x :
+  Print.init_globals gs acc = Some g -> assoc x g <> None -> In x (map gname gs) \/ assoc x acc <> None.
+Proof.
+  revert acc. induction gs as [|d r IH]; intros acc; cbn [Print.init_globals map].
+  - intros [= <-] H. right. exact H.
+  - destruct (coerce_all (gty d) (ginit d)); try discriminate. intros Hg Hx.
+    destruct (IH _ Hg Hx) as [H|H]; [left; right; exact H|].
+    cbn in H. destruct (Nat.eqb x (gname d)) eqn:E; [apply Nat.eqb_eq in E; left; left; congruence|right; exact H].
+Qed.
+
 Theorem refines_program p L S fuel :
   program_ok L S p -> snd (Print.run fuel p) <> Print.Failed EUnbound ->
   mech_run true fuel p = Print.run fuel p.
 Proof.
   intros [HSC Hmain] Hn. unfold Print.run, mech_run in *.
+  unfold Print.init_state in *. destruct (Print.init_globals (pglobals p) []) as [g|] eqn:Eg; [|reflexivity].
   pose proof (refine_all (pfuncs p) L (map gname (pglobals p)) S HSC fuel) as [_ IHx].
   assert (Hsim : sim L (map gname (pglobals p)) S [] [] (exec_list (mexec true (pfuncs p) fuel) (pmain p)) (exec_list (exec (pfuncs p) fuel) (pmain p))).
   { apply exec_list_sim. eapply allP_impl; [|exact Hmain]. cbn. intros st _ Hst. apply IHx; [exact Hst|].
     intros x. unfold bound_in. cbn. congruence. }
-  assert (HI : Inv L (map gname (pglobals p)) S (Print.init_state p)).
+  assert (HI : Inv L (map gname (pglobals p)) S (Print.state_with g)).
   { constructor.
     - eexists _, _. split; [reflexivity|]. intros x. cbn. congruence.
-    - intros x Hx. cbn in Hx. unfold Print.init_globals in Hx. apply assoc_in_fst in Hx.
-      rewrite map_rev, map_map in Hx. apply in_rev in Hx. cbn in Hx. exact Hx.
-    - intros g x. cbn. congruence. }
-  specialize (Hsim (Print.init_state p) HI).
-  change (emb [] [] (Print.init_state p)) with (Print.init_state p) in Hsim.
-  destruct (exec_list (exec (pfuncs p) fuel) (pmain p) (Print.init_state p)) as [c rs'] eqn:E. cbn [fst snd] in *.
+    - intros x Hx. cbn in Hx. destruct (init_globals_names _ _ _ x Eg Hx) as [H|H]; [exact H|cbn in H; congruence].
+    - intros f x. cbn. congruence. }
+  specialize (Hsim (Print.state_with g) HI).
+  change (emb [] [] (Print.state_with g)) with (Print.state_with g) in Hsim.
+  destruct (exec_list (exec (pfuncs p) fuel) (pmain p) (Print.state_with g)) as [c rs'] eqn:E. cbn [fst snd] in *.
   destruct Hsim as [Hm _].
   - intros ->. apply Hn. reflexivity.
   - rewrite Hm. reflexivity.
